@@ -224,6 +224,80 @@ theorem arpEvent_isRx (c : ArpFrame.Cfg) (offer : Bytes → Option Bytes) (p : B
   | none => rfl
   | some e => exact arpEventRef_isRx c offer p e h
 
+/-- `arpEvent` is the event of `arpEventOf` when there is one -/
+theorem arpEvent_eq (c : ArpFrame.Cfg) (offer : Bytes → Option Bytes) (p : Bytes) (e : ArpHunt.Event)
+    (hne : e ≠ .rxOther) (h : arpEvent c offer p = e) : arpEventOf c offer p = .ok (some e) := by
+  unfold arpEvent at h
+  cases ho : arpEventOf c offer p with
+  | ok x =>
+    rw [ho] at h
+    cases x with
+    | none => exact absurd h.symm hne
+    | some ev => simp only [] at h; rw [h]
+  | err x => rw [ho] at h; exact absurd h.symm hne
+  | panic => rw [ho] at h; exact absurd h.symm hne
+  | hang => rw [ho] at h; exact absurd h.symm hne
+
+/-- **The probe-reject rule on raw frames** (C13's `probe_reject_iff` with its inputs read off the bytes):
+    processing frame `p` writes a probe-reject reply to `m` for address `tip` iff `p` is a well-formed ARP
+    probe (reference reading: request with sender protocol address 0.0.0.0) of sender hardware address `m`
+    for `tip`, the session holds a DHCP offer for `m` (`offer m`, i.e. `MACEntry.IP4Offer` is an IPv4
+    address) that differs from `tip`, and `tip` lies in the home LAN prefix of the configuration. -/
+theorem probe_reject_frame_iff (c : ArpFrame.Cfg) (offer : Bytes → Option Bytes) (p : Bytes) (s : ArpHunt.State)
+    (m tip : Bytes) :
+    (∃ s', ArpHunt.step s (arpEvent c offer p) = some (s', .probeReject m tip)) ↔
+      (srcIndividual p = true ∧ ∃ a, decodeArpFrame p = some a ∧ Spec.ArpWire.kindOf a = .probe ∧ a.sha = m ∧
+        a.tpa = tip ∧ (∃ off, offer m = some off ∧ off ≠ tip) ∧
+        Netip.prefixContains c.parse.lanAddr c.parse.lanBits tip = true) := by
+  constructor
+  · rintro ⟨s', hs⟩
+    have hrx := arpEvent_isRx c offer p
+    cases he : arpEvent c offer p with
+    | rxProbe m' o t l =>
+      rw [he] at hs
+      simp only [ArpHunt.step] at hs
+      split at hs
+      · rename_i hrej
+        cases hs
+        have hof := arpEvent_eq c offer p _ (by simp) he
+        obtain ⟨hu, a, hd, hk, hm, ht, ho, hl⟩ := (probe_iff c offer p m tip o l).1 hof
+        refine ⟨hu, a, hd, hk, hm, ht, ?_, ?_⟩
+        · cases hoo : o with
+          | none => rw [hoo] at hrej; simp [ArpHunt.probeRejects] at hrej
+          | some off =>
+            rw [hoo] at hrej ho
+            simp only [ArpHunt.probeRejects, Bool.and_eq_true] at hrej
+            exact ⟨off, ho.symm, by simpa using hrej.1⟩
+        · cases hoo : o with
+          | none => rw [hoo] at hrej; simp [ArpHunt.probeRejects] at hrej
+          | some off =>
+            rw [hoo] at hrej
+            simp only [ArpHunt.probeRejects, Bool.and_eq_true] at hrej
+            rw [← hl]; exact hrej.2
+      · cases hs
+    | rxRequest e x r =>
+      rw [he] at hs; simp only [ArpHunt.step] at hs
+      split at hs
+      · split at hs <;> cases hs
+      · cases hs
+    | rxOther => rw [he] at hs; simp only [ArpHunt.step] at hs; cases hs
+    | startHunt a b => rw [he] at hrx; cases hrx
+    | stopHunt a b => rw [he] at hrx; cases hrx
+    | close => rw [he] at hrx; cases hrx
+    | check i => rw [he] at hrx; cases hrx
+    | restore i => rw [he] at hrx; cases hrx
+    | forge i => rw [he] at hrx; cases hrx
+    | wake i => rw [he] at hrx; cases hrx
+    | reply a => rw [he] at hrx; cases hrx
+  · rintro ⟨hu, a, hd, hk, hm, ht, ⟨off, hoff, hne⟩, hl⟩
+    have hof := (probe_iff c offer p m tip (offer m) (Netip.prefixContains c.parse.lanAddr c.parse.lanBits tip)).2
+      ⟨hu, a, hd, hk, hm, ht, rfl, rfl⟩
+    have he : arpEvent c offer p = .rxProbe m (offer m) tip (Netip.prefixContains c.parse.lanAddr c.parse.lanBits tip) := by
+      unfold arpEvent; rw [hof]
+    refine ⟨s, ?_⟩
+    rw [he, hoff, hl]
+    simp [ArpHunt.step, ArpHunt.probeRejects, hne]
+
 /-- every frame that is not a request for the router from a hunted ARP sender leaves the handler state
     unchanged: replies, announcements, probes (which may be answered with a probe reject), requests for
     other addresses, requests from hosts that are not hunted -/
